@@ -67,6 +67,7 @@ KANI_META.update({
     'k_npy_decode_chunked_reader': K('bounded', 'stream of two big-endian i4 values (contents symbolic) through readers handing out 1 and 3 bytes per call', ['TypeDescriptor::read', 'get_read_fn']),
     'k_npy_header_write_short_writes': K('bounded', 'header of shape (3,) through sinks accepting 1, 3, 7 bytes per call (HeaderDict Display stubbed by its text)', ['Header::write', 'Version::write_header_len']),
     'k_npy_write_array_values_bit_exact': K('complete', 'shape (2,), both values over all 2^64 bit patterns (HeaderDict Display stubbed by its text)', ['npy::write_array', 'Header::write', 'Array::iter']),
+    'k_npy_write_array_64_values': K('bounded', 'shape (64,), concrete values (HeaderDict Display stubbed by its text)', ['npy::write_array']),
     'k_fold_empty': K('bounded', 'shapes [0] and [2,0]', ['Spectrum::fold', 'Folded::from_spectrum']),
     'k_npy_f64_le_roundtrip': K('complete', 'none: all 2^64 bit patterns', ['f64::to_le_bytes', 'f64::from_le_bytes']),
     'k_detect_spectrum_format': K('complete', 'every byte string of length 0..=8', ['spectrum::io::Format::detect', 'detect_npy', 'detect_plain_text']),
@@ -79,10 +80,11 @@ KANI_META.update({
     'k_marg_2x3_a0': K('bounded', 'shape [2,3], axis 0', ['Spectrum::marginalize', 'marginalize_unchecked', 'marginalize_axis', 'Array::sum']),
     'k_marg_2x3_a1': K('bounded', 'shape [2,3], axis 1', ['Spectrum::marginalize', 'Array::sum']),
     'k_marg_2x3x2_a1': K('bounded', 'shape [2,3,2], axis 1', ['Spectrum::marginalize']),
-    'k_marg_2x3x2_a20': K('bounded', 'shape [2,3,2], axes [2,0] (descending)', ['Spectrum::marginalize']),
-    'k_marg_2x3x2_a01': K('bounded', 'shape [2,3,2], axes [0,1] (adjacent)', ['Spectrum::marginalize']),
-    'k_marg_2x2x1x2_a302': K('bounded', 'shape [2,2,1,2], axes [3,0,2] (neither ascending nor descending)', ['Spectrum::marginalize']),
-    'k_marg_2x2x1x2_a132': K('bounded', 'shape [2,2,1,2], axes [1,3,2]', ['Spectrum::marginalize']),
+    'k_marg_2x3x2_a20': K('bounded', 'shape [2,3,2], axes [2,0] (descending); Array::sum replaced by its contract (sum_by_definition)', ['Spectrum::marginalize', 'marginalize_unchecked', 'marginalize_axis']),
+    'k_marg_2x3x2_a01': K('bounded', 'shape [2,3,2], axes [0,1] (adjacent); Array::sum by contract', ['Spectrum::marginalize']),
+    'k_marg_2x2x1x2_a302': K('bounded', 'shape [2,2,1,2], axes [3,0,2] (neither ascending nor descending); Array::sum by contract', ['Spectrum::marginalize']),
+    'k_marg_2x2x1x2_a132': K('bounded', 'shape [2,2,1,2], axes [1,3,2]; Array::sum by contract', ['Spectrum::marginalize']),
+    'k_marg_2x3x1x2_a031': K('bounded', 'shape [2,3,1,2], axes [0,3,1]; Array::sum by contract', ['Spectrum::marginalize']),
     'k_stat_king_r0_r1_definition': K('bounded', '3 concrete asymmetric integer 3x3 tables', ['King/R0/R1::from_spectrum']),
     'k_stat_monomorphic_1d': K('bounded', 'shapes [4], [5]; monomorphic cells over all f64 bit patterns', ['Theta<Watterson/Tajima>', 'D<Tajima/FuLi>', 'Scs::segregating_sites']),
     'k_stat_monomorphic_2d': K('bounded', 'shapes [3,3], [2,4]; monomorphic cells over all f64 bit patterns', ['PiXY', 'King', 'R0', 'R1', 'Scs::segregating_sites']),
@@ -140,9 +142,9 @@ REGISTRY = {
         'level': 'proof',
         'verus': ['v_view', 'v_axisiter'],
         'verus_pairs': {'v_view': ['k_view_axis_views_2x3x2'], 'v_axisiter': ['k_view_axis_views_2x3x2']},
-        'kani_quick': ['k_marg_errors', 'k_marg_2x3_a0', 'k_view_axis_views_2x3x2'],
-        'kani_thorough': ['k_marg_2x3_a0', 'k_marg_2x3_a1', 'k_marg_2x3x2_a1', 'k_marg_2x3x2_a20', 'k_marg_2x3x2_a01', 'k_marg_2x2x1x2_a302', 'k_marg_2x2x1x2_a132'],
-        'assumptions': [A_FLOATSUM, A_BIN, 'Array::sum / marginalize_unchecked (iterator adapters) are checked by Kani on the listed shapes only'],
+        'kani_quick': ['k_marg_errors', 'k_marg_2x3_a0', 'k_marg_2x2x1x2_a302', 'k_view_axis_views_2x3x2'],
+        'kani_thorough': ['k_marg_2x3_a0', 'k_marg_2x3_a1', 'k_marg_2x3x2_a1', 'k_marg_2x3x2_a20', 'k_marg_2x3x2_a01', 'k_marg_2x2x1x2_a132', 'k_marg_2x3x1x2_a031'],
+        'assumptions': [A_FLOATSUM, A_BIN, 'Array::sum / marginalize_unchecked (iterator adapters) are checked by Kani on the listed shapes only; in the multi-axis marginalize harnesses Array::sum is replaced by its contract (sum_by_definition), which the single-axis harnesses check against the real sum'],
         'not_decided': ['--marginalize-keep complement (View::run, bin crate)', 'create/marginalize relation on call sets'],
     },
     'C05': {
@@ -214,7 +216,7 @@ REGISTRY = {
         'title': 'npy output conforms to NPY 1.0; every supported numpy dtype is read exactly',
         'level': 'proof',
         'verus': ['v_npyhdr'],
-        'verus_pairs': {'v_npyhdr': ['k_npy_write_array_values_bit_exact', 'k_npy_header_write_short_writes']},
+        'verus_pairs': {'v_npyhdr': ['k_npy_write_array_values_bit_exact', 'k_npy_header_write_short_writes', 'k_npy_write_array_64_values']},
         'kani_quick': ['k_npy_write_header_len', 'k_npy_version_bytes', 'k_npy_read_header_len', 'k_npy_write_array_values_bit_exact'] + DECODERS,
         'kani_thorough': [],
         'assumptions': ['io::Write::write_all contract (std documentation) is assumed in V-npyhdr', 'HeaderDict Display text is an uninterpreted function of (descr, fortran_order, shape) in V-npyhdr; its literal form and the nom parser are not verified',
@@ -244,8 +246,8 @@ REGISTRY = {
         'level': 'proof',
         'verus': ['v_npyhdr'],
         'verus_pairs': {'v_npyhdr': ['k_npy_header_write_short_writes', 'k_npy_write_array_values_bit_exact']},
-        'kani_quick': ['k_detect_genotype_stream', 'k_npy_read_header_len'],
-        'kani_thorough': ['k_npy_decode_partial_value_is_error', 'k_npy_decode_chunked_reader', 'k_npy_header_write_short_writes'],
+        'kani_quick': ['k_detect_genotype_stream', 'k_npy_read_header_len', 'k_npy_decode_chunked_reader'],
+        'kani_thorough': ['k_npy_decode_partial_value_is_error', 'k_npy_header_write_short_writes', 'k_npy_write_array_64_values'],
         'assumptions': ['writer: for every sink obeying the write_all contract the bytes are the same sequence however many the sink accepts per call, and Ok is returned only if no write failed (V-npyhdr, unbounded)',
                         'reader: read_exact / fill_buf of std are assumed chunk-independent; the npy value loop is exercised on slices only'],
         'not_decided': ['VCF/BCF/BGZF streams (noodles, flate2)', 'text writer (writeln!/format!)', 'BGZF branch of format detection (gzip decoder over the first buffer)'],
